@@ -1,0 +1,14 @@
+//go:build verif
+// +build verif
+
+package log
+
+// VerifPointFn, when set, is called at every observation point inside the
+// package (see verifPoint calls). Only compiled with build tag verif.
+var VerifPointFn func(name string, args ...interface{})
+
+func verifPoint(name string, args ...interface{}) {
+	if VerifPointFn != nil {
+		VerifPointFn(name, args...)
+	}
+}
